@@ -22,7 +22,8 @@ CONSTANTS
     UrlIdx = "layer"
     ReaderChecksRef = TRUE
     ReaderChecksDigest = TRUE
+    ReaderResetsUrls = TRUE
     ReaderSkipsTarget = TRUE
 SPECIFICATION Spec
-INVARIANTS AllLabelsValid RoundTrip NeighbourUrlsPositional PrefetchSizeRoundTrips MalformedMandatoryRejected TamperLogExplains ExtraKeepsPreset
+INVARIANTS AllLabelsValid RoundTrip NeighbourUrlsPositional PrefetchSizeRoundTrips UrlsOwnOrNone MalformedMandatoryRejected TamperLogExplains ExtraKeepsPreset
 CHECK_DEADLOCK FALSE
